@@ -74,7 +74,9 @@ pub fn vector_set(vm: &mut Vm) -> Result<VCell, Error> {
 
 pub fn vector_fill(vm: &mut Vm) -> Result<VCell, Error> {
     pop_argc(vm, 2, Some(2), "vector-fill!")?;
-    let value = vm.heap.get(vm.stack.pop()?);
+    // store the argument itself: dereferencing it would store a copy of a pair or
+    // vector in every slot, and the vector itself when filling it with itself
+    let value = vm.stack.pop()?.clone();
     let vector = pop_vector(vm)?;
     for idx in 0..vector.len() {
         vector.put(idx, value.clone());
